@@ -88,6 +88,7 @@ func scenC04(w *vsim.World, spec *vsim.Spec) {
 	applied := map[string][]appliedStamp{}    // hash -> timestamps that requests gave the block (rename into place, utimes) and when
 	lastChtimesAt := map[string]time.Time{}   // task -> time of its latest utimes step
 	longWaitForFlock := map[string]bool{}     // task -> it got a flock a whole TTL after its previous step (the open)
+	staleLockTouch := map[string]bool{}       // hash -> a Touch whose flock came a whole TTL after its open has stamped this block
 	stalledRenameAt := map[string]time.Time{} // hash -> when a writer that had been in flight for >= TTL renamed its temp file into place
 	lastCopyWrite := map[string]time.Time{}   // request task id -> time of the latest data-write step of a block write it performed
 	taskStart := map[string]time.Time{}       // request task id (up to the first '.') -> time of its first filesystem step
@@ -154,8 +155,8 @@ func scenC04(w *vsim.World, spec *vsim.Spec) {
 						w.Violation("c04/trash-while-trashing-disabled", "BlobTrash is off but %s left volume %s (last step: %+v)", base[:8], vs.name, last)
 						return
 					}
-					if age < ttl && last != nil && longWaitForFlock[last.task] {
-						w.ViolationSig("c04/block-younger-than-ttl-trashed", "trash-resumed-after-a-whole-ttl-holds-the-lock-of-a-replaced-file", "volume %s: %s was trashed at age %s < TTL %s: the trashing request had opened the block, then waited for its flock for a whole TTL; meanwhile a writer replaced the file, so the lock it finally got was on the unlinked old file, a TOUCH/PUT of the new file was not excluded, and the request renamed the freshly touched file (last step: %+v)", vs.name, base[:8], age, ttl, last)
+					if age < ttl && last != nil && (longWaitForFlock[last.task] || staleLockTouch[base]) {
+						w.ViolationSig("c04/block-younger-than-ttl-trashed", "trash-resumed-after-a-whole-ttl-holds-the-lock-of-a-replaced-file", "volume %s: %s was trashed at age %s < TTL %s: a Trash or a Touch of this block had opened the file and then waited for its flock for a whole TTL; meanwhile a writer replaced the file, so the lock it finally got was on the unlinked old file and Trash and Touch of the file at the path were not serialised: the freshly touched file was renamed into the trash (last step: %+v)", vs.name, base[:8], age, ttl, last)
 						return
 					}
 					if age < ttl && stalledWriter[base] {
@@ -322,6 +323,13 @@ func scenC04(w *vsim.World, spec *vsim.Spec) {
 				if strings.Contains(root, ">") && (!fromTmp || !fi.ModTime().Before(lastCopyWrite[root])) {
 					applied[b2] = append(applied[b2], appliedStamp{at: time.Now(), ts: fi.ModTime()})
 				}
+			}
+		}
+		if s.Op == "chtimes" && longWaitForFlock[s.Task] {
+			// a Touch that got its flock a whole TTL after opening the file: the lock may be on a replaced file,
+			// and its utimes (by path) is then not serialised with a Trash of the file that is there now
+			if b := filepath.Base(s.Path); len(b) == 32 && isHex32(b) {
+				staleLockTouch[b] = true
 			}
 		}
 		if s.Op == "chtimes" {
